@@ -139,4 +139,30 @@ fn run(e: &Engine) {
             e.harness_error(format!("generator unhealthy: only {} cases labelled {l:?}", e.label_count(l)));
         }
     }
+    // from bytes: ALL strings of up to N tokens on the fixed tree with handlers that pull exactly
+    // 0, 1, 2 or 3 required elements; the recogniser + resolver say which unit is the first with a
+    // different data count and therefore fails with -109 / -108 (see props/execdiff.rs)
+    use crate::props::execdiff::{self, Case as D};
+    let toks: Vec<Vec<u8>> = ARITY_TOKENS.iter().map(|t| t.to_vec()).collect();
+    let idx: Vec<u8> = (0..toks.len() as u8).collect();
+    let tp = crate::gen::enumstr::Partitioned { alpha: &idx, max_len: if cfg!(debug_assertions) { e.tier.pick(5, 6) } else { e.tier.pick(7, 8) }, prefix_len: 2 };
+    let (tpr, toksr) = (&tp, &toks);
+    e.enumerate::<D, _, _>(
+        "bytes-differential-arity-all-token-strings",
+        tp.parts() * 4,
+        move |part, f| {
+            let pulls = (part % 4) as u8;
+            tpr.run(part / 4, &mut |s| f(D::FixArity { bytes: crate::bytes::B(execdiff::concat(toksr, s)), pulls }))
+        },
+        execdiff::check,
+    );
+    for l in ["arity: missing parameter expected", "arity: surplus parameter expected"] {
+        if !e.replay_only && !e.failed() && e.label_count(l) < 1000 {
+            e.harness_error(format!("generator unhealthy: only {} cases labelled {l:?}", e.label_count(l)));
+        }
+    }
 }
+
+/// Tokens of the arity enumeration: two leaves, a branch step, unit and data
+/// separators, first / further data of three types, query mark, terminator.
+pub const ARITY_TOKENS: &[&[u8]] = &[b"A", b":B:E", b"*X", b";", b"?", b" 1", b" 'x'", b",2", b",#11z", b"\n"];
